@@ -331,7 +331,7 @@ def _eval_shard1(args):
         f.write("Definition R := Eval vm_compute in judge_all cases.\nPrint R.\n")
     rc, out = sh(["timeout", "1800", "coqc", "-Q", COQ, "NP", path], cwd=tmpdir)
     if rc != 0:
-        return idx, None, out[-3000:]
+        return idx, None, (out[-3000:] or "coqc exited with status %d and no output (timeout?)" % rc)
     m = re.search(r"R\s*=\s*(.*?)\n\s*:\s*list Z", out, re.S)
     if not m:
         return idx, None, "cannot parse coqc output: " + out[-2000:]
